@@ -15,19 +15,19 @@ import (
 func init() {
 	register(&property{
 		ID:          "C08",
-		Explanation: "Static decision of the sharing discipline between concurrently handled connections: (R1) a field or variable accessed through sync/atomic anywhere is accessed only through sync/atomic; (R2) per-connection code (everything reachable from Match/Handle/Select/handle) performs no plain store through the shared module instance (receiver of Match/Handle/Select), through a package-level variable, or into anything reached from them - directly or in a callee (effect summaries over the module call graph) - and uses only package-level variables reviewed as safe for concurrent use; (R3) pooled matching buffers: a buffer obtained from the pool and returned in the same function is never retained (stored, returned, sent), and where the buffer is handed to a Connection the Put is under the same guard as the connection's Close; (R4) a goroutine started by a handler with access to the connection is joined before the handler returns; (R5) Connection.Write, which runs concurrently with itself, performs no plain store.",
+		Explanation: "Static decision of the sharing discipline between concurrently handled connections: (R1) a field or variable accessed through sync/atomic anywhere is accessed only through sync/atomic; (R2) per-connection code (everything reachable from Match/Handle/Select/handle) performs no plain store through the shared module instance (receiver of Match/Handle/Select), through a package-level variable, or into anything reached from them - directly or in a callee (effect summaries over the module call graph) - and uses only package-level variables reviewed as safe for concurrent use; (R3) pooled matching buffers: a buffer obtained from the pool and returned in the same function is never retained (stored, returned, sent), and where the buffer is handed to a Connection the Put is under the same guard as the connection's Close; (R4) a goroutine started by a handler with access to the connection is joined before the handler returns; (R5) Connection.Write, which runs concurrently with itself, performs no plain store. Added: (R6) every buffer handed to WrapConnection has proven length 0 (a recycled slice keeps the length it was returned with); (R7) the hand-off release discipline of C13.R3.",
 		NotDecided:  "Absence of data races in general (no whole-program may-happen-in-parallel analysis; third-party code trusted); cross-talk for all interleavings; races on per-connection objects that a handler itself shares between its own goroutines beyond R4/R5.",
 		Run:         runC08,
 	})
 	register(&property{
 		ID:          "C09",
-		Explanation: "Static decision of the UDP demultiplexing mechanisms: (R1) channel close ownership: a channel is closed only where no other function sends on it, or after a WaitGroup.Wait that joins the senders; (R2) the association table is indexed, filled and cleaned with one and the same key derivation (<addr>.String() of the datagram's source address / of the virtual connection's address); (R3) replies go to the stored client address, which is written only when the association is created from the first datagram's source address; (R4) there is one ReadFrom site in one reader goroutine per socket, started once per listener returned by ListenAll, and every datagram is forwarded to exactly one per-client queue; (R5) end-of-association notifications are blocking sends (never dropped).",
+		Explanation: "Static decision of the UDP demultiplexing mechanisms: (R1) channel close ownership: a channel is closed only where no other function sends on it, or after a WaitGroup.Wait that joins the senders; (R2) the association table is indexed, filled and cleaned with one and the same key derivation (<addr>.String() of the datagram's source address / of the virtual connection's address); (R3) replies go to the stored client address, which is written only when the association is created from the first datagram's source address; (R4) there is one ReadFrom site in one reader goroutine per socket, started once per listener returned by ListenAll, and every datagram is forwarded to exactly one per-client queue; (R5) end-of-association notifications are blocking sends (never dropped). Added: (R6) queued datagrams do not alias - the record sent by pointer to a client queue is allocated per loop iteration and each queued record carries a buffer obtained in the same iteration; (R7) packetConn.Read, path-evaluated over fresh/continued datagrams and a caller buffer smaller than / equal to / larger than the remaining bytes: the pooled buffer is released iff the datagram is exhausted, otherwise retained.",
 		NotDecided:  "Interleavings with idle expiry, back-pressure when a per-client queue is full (the loop blocks - liveness), datagram truncation, ordering guarantees of the kernel.",
 		Run:         runC09,
 	})
 	register(&property{
 		ID:          "C13",
-		Explanation: "Static decision of the listener-wrapper hand-off: (R1) the wrapper's routes are compiled with the hand-off handler as fallback; (R2) pipeConnection, path-evaluated over the TLS-state cases, performs exactly one send on the hand-off channel and returns errHijacked, which listenerHandler returns unchanged; (R3) in listener.handle the connection's Close and the return of its pooled buffer happen under the same 'not hijacked' guard; (R4) shutdown protocol: wg.Add precedes every go handle, handle defers wg.Done, connChan is closed only after wg.Wait in a goroutine of its own, the drain loop that closes pending connections is reached without waiting for the handlers, done is closed after the accept loop, Accept reports net.ErrClosed on both closed channels; (R6) the delivered value is the layer4 connection itself or a wrapper embedding it (prefetched bytes are replayed, plaintext after TLS); (R7) bounded abstract interpretation of the compiled route handler: nothing - in particular not the hand-off fallback - runs after a terminal route.",
+		Explanation: "Static decision of the listener-wrapper hand-off: (R1) the wrapper's routes are compiled with the hand-off handler as fallback; (R2) pipeConnection, path-evaluated over the TLS-state cases, performs exactly one send on the hand-off channel and returns errHijacked, which listenerHandler returns unchanged; (R3) in listener.handle the connection's Close and the return of its pooled buffer happen under the same 'not hijacked' guard; (R4) shutdown protocol: wg.Add precedes every go handle, handle defers wg.Done, connChan is closed only after wg.Wait in a goroutine of its own, the drain loop that closes pending connections is reached without waiting for the handlers, done is closed after the accept loop, Accept reports net.ErrClosed on both closed channels; (R6) the delivered value is the layer4 connection itself or a wrapper embedding it (prefetched bytes are replayed, plaintext after TLS); (R7) bounded abstract interpretation of the compiled route handler: nothing - in particular not the hand-off fallback - runs after a terminal route. Added: (R8) the hand-off runs with the matching deadline cleared on every explored path (C05.R2).",
 		NotDecided:  "'No goroutine stays blocked' in general (hand-off blocks while the consumer is slow, by design); the stream read back after hand-off (C01); TLS state contents.",
 		Run:         runC13,
 	})
